@@ -376,7 +376,14 @@ func unsyncedDecodeAndRun(cfgJSON []byte, allowPersist bool) error {
 				zap.String("dir", dir),
 				zap.Error(err))
 		} else {
-			err := os.WriteFile(ConfigAutosavePath, cfgJSON, 0o600)
+			// write to a temporary file first and move it into place, so that
+			// the autosave file is a complete config at every instant, even if
+			// we are interrupted while writing
+			tmpPath := ConfigAutosavePath + ".tmp"
+			err := os.WriteFile(tmpPath, cfgJSON, 0o600)
+			if err == nil {
+				err = os.Rename(tmpPath, ConfigAutosavePath)
+			}
 			if err == nil {
 				Log().Info("autosaved config (load with --resume flag)", zap.String("file", ConfigAutosavePath))
 			} else {
